@@ -11,7 +11,6 @@ sys.path.insert(0, HERE)
 ALL = ["C%02d" % i for i in range(1, 21)]
 NOT_APPLICABLE = {
     "C13": "answers are set-valued functions of an arbitrary defs grid (runtime values); no shape of the code is a necessary condition beyond termination (C09) and lock discipline (C14), so static analysis does not decide it (DESIGN.md section 4)",
-    "C16": "numerical results over ~200k unit pairs and all magnitudes; the only shape facts (a dimension test guards convert_to, non-zero scales) are too weak to be called deciding the property (DESIGN.md section 4)",
 }
 
 
